@@ -275,6 +275,11 @@ def run(ctx):
     from . import common
     cg = res.clause('C19.g', 'R-PROV', 'categories and explicit ids are stored as the caller gave them', floor=2)
     common.ctor_params_clause(ctx, res, cg, 'C19', 'C19.g', 'PlaybackStudio', params=['categories', 'recording_ids'])
+    # ---- C19.k a reported comparison stems from the replay of its own recording: answers of a previous worker cannot be taken for
+    # those of the current one (shared with C08.e)
+    from . import common as _cm19
+    _cm19.import_clauses(ctx, res, 'C08', ['C08.e'], 'C19', 'C19.k', 'R-AGREE',
+                         'worker answers are correlated with the recording they were asked for (fresh channels per worker)', floor=1)
     return res
 
 
